@@ -471,6 +471,8 @@ def run(ctx):
     for r in range(reps):
         for k in classes:
             p = prog_of(ctx.rng, k)
+            # fault-free classes: a conversion the design accepts must succeed (oracle:ConvertFailed)
+            p["mustops"] = ["Convert"]
             if p["link"] is not None:
                 p["link"] = "%s/%d" % (p["link"], r)      # one interpreter per pair and repetition
             progs.append(p)
